@@ -97,6 +97,11 @@ CLAIMED["C20"] = (
     COMMON_TRUST + " Not decided here: goroutine interleavings of fetchers and submitters, restarts and mastership changes (whole-history clauses), termination, and the Trillian backend's own idempotence for re-submitted leaves; proof.VerifyConsistency, backoff.Retry and the gRPC stubs are assumed as documented (Retry: returns f's error unless it is retryable); start indices configured beyond the destination size are the operator's choice and are not excluded.",
 )
 
+CLAIMED["C17"] = (
+    "Deductive proof of the step-level rules the statement rests on, each on the real function: the policy minima (Chrome: one Google-operated and one non-Google-operated SCT plus 2/3/4/5 in total for lifetimes below 15 / up to 27 / up to 39 / more months; Apple: the same totals) with the lifetime in whole months computed from NotBefore and NotAfter, and an error exactly when a group cannot reach its minimum; request() answers true at most for the first request of a log, leaves a non-nil entry behind and refuses every later request for that log unchanged, so with the per-log goroutine proved to call SubmitToLog only after request() answered true, never for a complete group, and to report exactly that log's answer, no log is sent the chain twice; a failed submission records the error and changes no group's need; groupComplete is 'no SCT still needed'; every SCT handed back is a recorded SCT of the log it is attributed to (one map entry per log); the root filter keeps a log exactly when its accepted roots are unknown or include the chain's root, and the temporal filter is C18's. NOT decided by this check: the accounting clause itself (on success every policy group has its required number of SCTs among those returned) is an invariant over the whole history of setResult calls with set cardinalities and map iteration, which no contract within reach expresses; nor liveness, cancellation and data races.",
+    COMMON_TRUST + " setResult's SCT branch, GroupByLogs, populate and Compatible's composition are not under verified contracts (maps of maps / nested iteration); the Submitter is assumed not to touch the submission state; goroutine interleavings are not modelled (the state machine's methods are proved as sequential critical sections under their mutex).",
+)
+
 NOT_YET = "contracts for this property are not yet discharged by the generator in this revision; no other technique is substituted"
 NOT_APPLICABLE = {}
 
